@@ -348,6 +348,7 @@ func c07Fresh(log []vfEv, slack int64, fail func(string)) {
 		logT   int64 // closing: time of the Close event, -1 before it
 		slow   bool
 		byRL   bool
+		inWin  bool  // closing: a complete datagram is being fed meanwhile; whether it started a fresh entry is not known before its hook record (written when a slow hook returns) or the end of the receive loop's turn
 		endedT int64 // when the previous session of this id was reported closed (-1: never had one)
 	}
 	ids := map[uint32]*st{}
@@ -372,7 +373,7 @@ func c07Fresh(log []vfEv, slack int64, fail func(string)) {
 	var w *want
 	winSid, winErr := uint32(0), false // the id the receive loop is feeding; its hook / dial failed
 	settle := func(x *st) {
-		x.k, x.sock, x.logT, x.slow, x.byRL = absent, -1, -1, false, false
+		x.k, x.sock, x.logT, x.slow, x.byRL, x.inWin = absent, -1, -1, false, false, false
 	}
 	finish := func() {
 		if w == nil {
@@ -399,7 +400,7 @@ func c07Fresh(log []vfEv, slack int64, fail func(string)) {
 	for _, ev := range log {
 		// settle by the clock
 		for _, x := range ids {
-			if x.k == closing && x.logT >= 0 {
+			if x.k == closing && x.logT >= 0 && !x.inWin {
 				d := int64(0)
 				if x.slow {
 					d = 10
@@ -413,6 +414,7 @@ func c07Fresh(log []vfEv, slack int64, fail func(string)) {
 		case "recv", "recverr":
 			finish()
 			for _, x := range ids {
+				x.inWin = false // no hook record during the receive loop's turn: the datagram went to the dead entry
 				if x.k == closing && x.logT >= 0 && x.byRL {
 					settle(x)
 				}
@@ -441,8 +443,9 @@ func c07Fresh(log []vfEv, slack int64, fail func(string)) {
 			case closing:
 				if !ev.Ok {
 					x.k = unknown // a fresh fragment-only entry may exist now
+				} else {
+					x.inWin = true // either it is followed by hook/New/dial (fresh entry) or it went to the dead entry
 				}
-				// a complete datagram: either it is followed by hook/New/dial (fresh entry) or it went to the dead entry
 			}
 		case "hook":
 			if w != nil && ev.Sid == w.sid {
@@ -454,7 +457,7 @@ func c07Fresh(log []vfEv, slack int64, fail func(string)) {
 			// only initConn on an open entry without a socket reaches the hook: whatever was known before, the
 			// table now holds an entry of this id (a fresh one if the previous session was closing)
 			if x := get(ev.Sid); x.k == closing || x.k == unknown || x.k == frag || x.k == absent {
-				x.k, x.sock, x.logT, x.slow, x.byRL = dialing, -1, -1, false, false
+				x.k, x.sock, x.logT, x.slow, x.byRL, x.inWin = dialing, -1, -1, false, false, false
 			}
 		case "new":
 			if w != nil && ev.Sid == w.sid {
@@ -481,7 +484,7 @@ func c07Fresh(log []vfEv, slack int64, fail func(string)) {
 					x.k, x.sock = live, ev.Sock
 				} else if x.k == closing {
 					// fresh entry created by a datagram that arrived after the (unsettled) delete
-					x.k, x.sock, x.logT, x.slow, x.byRL = live, ev.Sock, -1, false, false
+					x.k, x.sock, x.logT, x.slow, x.byRL, x.inWin = live, ev.Sock, -1, false, false, false
 				}
 			}
 		case "write":
